@@ -38,6 +38,11 @@ CLAIMED.update({
          "Process-crash model (completed system calls survive); power-loss effects are outside the property and not injected; real SIGKILL is replaced by disk forks at system-call boundaries (replayable)."),
 })
 
+CLAIMED.update({
+ "C12": ("exploration", "5.12", "Hostile datagrams, TCP sessions and HTTP requests (nine routes x five methods x hostile queries and bodies, incl. correctly GCA-signed structures with extreme fields) at (now, offset) configurations incl. a stalled rotation thread up to now-offset 4500 and traffic injected inside the start-up catch-up loop; authorized peers up, down, refusing, timing out or answering 503 while authorizations and server posts are forwarded; 0-6 idle or half-sent sync connections at Close(). After every input: no handler panic (recover wrapper is the witness), liveness probe answered, every mutex free; Close() bounded by 2 x serverShutdownTime of simulated time.",
+         "net/http connection handling and the accept loops are stubs; NASA/WattTime are unreachable in this flavour; GCA-signed inputs never assign one key to two ids."),
+})
+
 NOT_YET = {
 }
 
